@@ -265,6 +265,7 @@ type outcome struct {
 	fired               bool
 	mem                 wl.Snap // running instance after the call (if not crashed)
 	memLocked           bool
+	signFail            string // a key of the still unlocked wallet that no longer signs after an operation that reported an error
 	contID              string // keystore created on the running instance after the faulted call (continuation runs)
 	contErr             error
 	contPass            []byte
@@ -445,6 +446,20 @@ func faultHistory(run *vh.Run, rng *vh.Rng, hi int) {
 			if !out.crashed {
 				out.mem = ww.Snapshot()
 			}
+			if !out.crashed && out.err != nil && op.Unlock && !ww.M.IsLocked() {
+				// the operation reported an error and the wallet still says it is unlocked: every keystore it had
+				// before must still sign
+				digest := sha256.Sum256([]byte(tag))
+				for _, ks := range pre.Ks {
+					if len(ks.Keys) == 0 {
+						continue
+					}
+					if _, err := ww.M.SignHash(wl.ParsePub(ks.Keys[0].Pub), digest[:]); err != nil {
+						out.signFail = fmt.Sprintf("keystore %s key %s: %v", ks.ID, ks.Keys[0].Pub, err)
+						break
+					}
+				}
+			}
 			if cont && !out.crashed {
 				// the user carries on with the running instance: a new keystore under the private passphrase the
 				// wallet accepts now, one address, close
@@ -550,6 +565,9 @@ func faultHistory(run *vh.Run, rng *vh.Rng, hi int) {
 				}
 				if pre.Locked != out.mem.Locked {
 					run.Violate(ci, "running-instance-changed-although-operation-failed", attrs, detail(map[string]interface{}{"diff": "lock state"}))
+				}
+				if out.signFail != "" {
+					run.Violate(ci, "running-instance-changed-although-operation-failed", attrs, detail(map[string]interface{}{"diff": "an unlocked keystore no longer signs: " + out.signFail}))
 				}
 				run.Count("running_instance_checked_after_error", 1)
 			}
